@@ -62,10 +62,10 @@ def run(ctx):
     jobs = [dict(sources=["harness.cpp"], out="h_" + b, backend=b, sanitize="asan") for b in BACKENDS]
     # the wake-up scenario is timing-sensitive: an un-instrumented -O2 build of the internal backend for it
     jobs.append(dict(sources=["harness.cpp"], out="hw_internal", backend="internal", sanitize=None, opt="-O2"))
-    tsan = []
-    if ctx.thorough():
-        tsan = ["omp"]
-        jobs += [dict(sources=["harness.cpp"], out="ht_" + b, backend=b, sanitize="tsan") for b in tsan]
+    # TSan: the OpenMP build only (every AsyncTask / schedule() is a std::thread, fully visible to TSan); the TBB runtime is
+    # not instrumented and yields false reports (std::function handed through tbb::task_group)
+    tsan = ["omp"]
+    jobs += [dict(sources=["harness.cpp"], out="ht_" + b, backend=b, sanitize="tsan") for b in tsan]
     exes = ctx.cxx_many(jobs)
     hx = dict(zip([j["out"] for j in jobs], exes))
     if any(e is None for e in exes):
@@ -134,6 +134,21 @@ def run(ctx):
                         pipe_full_inline[" ".join(args)] = int(f.get("ran_on_caller", "0"))
                     if b != "debug":
                         ctx.nontriv(("parkburst", b, T, n))
+        # ---- schedule() uses the CALLER's arena / a per-call object on every call: first call of a functor type from inside a
+        # small tbb::task_arena(2,1) with a long-running closure, later calls of the same type from the main thread
+        if b != "debug":
+            args = ["arena", "5"]
+            rc, lines, err = run_mode(b, args, timeout=120)
+            f = kv(lines[-1]) if lines else {}
+            ctx.count(5)
+            if rc != 0 or not f:
+                bad("schedule-crash", b, args, "harness rc=%d: %s" % (rc, san_summary(err)), "no crash, no hang", err)
+            elif f.get("ran_within_2s") != f.get("later_calls") or f.get("long_running_started") != "1":
+                bad("schedule-starved", b, args, lines[-1],
+                    "a closure scheduled from the main thread runs within 2 s although an earlier closure of the same functor type "
+                    "(scheduled first%s) is still running" % (" from inside tbb::task_arena(2,1)" if b == "tbb" else ""))
+            else:
+                ctx.nontriv(("arena", b))
         # ---- wake-up: one schedule() at a time, timed (sweep 0..100 us) to the idle worker's spin-to-sleep transition
         for T, ms in ((2, ctx.pick(5000, 30000)), (3, ctx.pick(1500, 10000))) if b == "internal" else ((2, ctx.pick(400, 2000)),):
             args = ["wakeup", str(T), str(ms)]
@@ -275,8 +290,25 @@ def run(ctx):
                         ctx.broken.append("trace correspondence: harness live-set and extracted lifetime machine disagree on %r (%s)" % (tr, ml))
             ctx.cov["slot_trace_histogram"] = thist
 
-    # ---- thorough: TSan on the std::thread-based backend
+    # ---- TSan (quick too): poll finished() until true, then get() WITHOUT waiting — the flag is the only thing ordering
+    # "retValue = fcn()" before "return retValue"; heap-owning result types
     for b in tsan:
+        for ty in ("string", "vector"):
+            args = ["asynctask", str(ctx.pick(4, 12)), ty, "finget"]
+            rc, lines, err = run_mode(b, args, prefix="ht_")
+            ctx.count(len(lines))
+            if rc != 0:
+                in_at = "AsyncTask.h" in err
+                bad("asynctask-data-race" if in_at else "data-race", b + "(tsan)", args,
+                    "ThreadSanitizer (rc=%d): %s%s" % (rc, san_summary(err), "; frames in rkcommon/tasking/AsyncTask.h: " +
+                                                        " | ".join(re.findall(r"AsyncTask<[^\n]*?>::(\w+\([^)]*\))[^\n]*AsyncTask\.h:(\d+)", err)[i][0] + ":" +
+                                                                   re.findall(r"AsyncTask<[^\n]*?>::(\w+\([^)]*\))[^\n]*AsyncTask\.h:(\d+)", err)[i][1]
+                                                                   for i in range(min(3, len(re.findall(r"AsyncTask<[^\n]*?>::(\w+\([^)]*\))[^\n]*AsyncTask\.h:(\d+)", err))))) if in_at else ""),
+                    "script: construct AsyncTask<%s>; poll finished() until true; get() — no data race on the result" % ty, err)
+            else:
+                ctx.nontriv(("tsan-finget", b, ty))
+    # ---- thorough: more TSan on the std::thread-based backend
+    for b in (tsan if ctx.thorough() else []):
         for args in (["burst", "1000"], ["async", str(areps)], ["asynctask", str(treps), "string"], ["destroy", str(dreps)]):
             rc, lines, err = run_mode(b, args, prefix="ht_")
             if rc != 0:
@@ -303,7 +335,7 @@ def run(ctx):
     ctx.cov["client_scripts"] = sorted(NGETS)
     ctx.rule = ("per backend (TBB, OpenMP, Internal, Debug; ASan+UBSan): schedule() bursts of %s closures owning heap state (exactly-once "
                 "after quiescence, caller idle); async() x %d over int/long string/vector/slow-logging type (+ outstanding futures); "
-                "wakeup (one schedule() at a time, delay swept 0..100 us around the worker's spin-to-sleep transition, each closure must run within 2 s); parkburst (workers parked, 300/1000 pending closures > pipe size); nested (a scheduled closure schedules a same-type closure and waits in AsyncTask::get / parallel_for); AsyncTask<T> x %d repetitions x 6 client scripts x task durations {0,2,12} ms over 5 result types incl. a "
+                "arena (first schedule() of a functor type from inside a small tbb::task_arena, later ones from main must run within 2 s); TSan(OpenMP build): poll finished() then get() on string/vector; wakeup (one schedule() at a time, delay swept 0..100 us around the worker's spin-to-sleep transition, each closure must run within 2 s); parkburst (workers parked, 300/1000 pending closures > pipe size); nested (a scheduled closure schedules a same-type closure and waits in AsyncTask::get / parallel_for); AsyncTask<T> x %d repetitions x 6 client scripts x task durations {0,2,12} ms over 5 result types incl. a "
                 "lifetime-instrumented payload whose slot trace is validated by the extracted model; destroy-while-running x %d; "
                 "one-thread schedule. non-trivial = a case with a non-trivially-constructible result type or a task outliving "
                 "the constructor, or a burst > 1" % (bursts, areps, treps, dreps))
